@@ -118,6 +118,37 @@ pub const PLACEHOLDERS: [&str; 34] = [
     "{{mdt}}", "{mdt", "mdt}", "MDT", "/dev/sim0", "/", "/dev/mapper/mdt0", "{dev}", "#mdt#",
 ];
 
+static DICTIONARY: std::sync::OnceLock<Vec<String>> = std::sync::OnceLock::new();
+
+/// Load the dictionary harvested from the library's own string literals (run.sh writes it next to
+/// the target directory's binaries at build time). Called once by `main` on the coordinator
+/// thread, before any simulated thread exists. A missing file is an empty dictionary.
+pub fn load_dictionary() -> usize {
+    // (getenv and open are seams, but only for simulated threads: this is the coordinator)
+    let words = DICTIONARY.get_or_init(|| {
+        let path = std::env::var_os("VERIF_ROOT").map(std::path::PathBuf::from).unwrap_or_else(|| std::path::PathBuf::from("/verif")).join("target/dict.json");
+        std::fs::read_to_string(path).ok()
+            .and_then(|t| serde_json::from_str::<Vec<String>>(&t).ok())
+            .unwrap_or_default()
+    });
+    words.len()
+}
+
+/// A string that a templating step might mistake for its own marker: one of the fixed look-alikes
+/// or, one time in three, a word of the library's own source.
+pub fn placeholder(rng: &mut Rng) -> String {
+    let dict = DICTIONARY.get().map(|d| d.as_slice()).unwrap_or(&[]);
+    if !dict.is_empty() && rng.chance(1, 3) {
+        let w = &dict[rng.usize_below(dict.len())];
+        // a prefix such as `%lf3:port:` is completed the way the library completes it
+        if w.ends_with(':') && rng.chance(1, 2) {
+            return format!("{w}{}", rng.below(4));
+        }
+        return w.clone();
+    }
+    rng.pick(&PLACEHOLDERS).to_string()
+}
+
 fn unsupported_leaf(rng: &mut Rng) -> String {
     rng.pick(&[
         "-user bob", "-group staff", "-user root", "-group root", "-user 0", "-regex x.*", "-iregex x", "-lname x", "-ilname x", "-samefile f", "-anewer f",
@@ -152,7 +183,7 @@ fn matcher_test(rng: &mut Rng, cfg: &GenCfg) -> String {
     let which = *rng.pick(&["-name", "-name", "-iname", "-path", "-ipath"]);
     let mut p = pattern(rng.usize_below(cfg.pattern_pool.max(1)));
     if cfg.placeholder_strings && rng.chance(1, 3) {
-        p = rng.pick(&PLACEHOLDERS).to_string();
+        p = placeholder(rng);
         if rng.chance(1, 3) {
             p = format!("a{p}*");
         }
@@ -178,7 +209,9 @@ fn perm_arg(rng: &mut Rng) -> String {
         let n = rng.range(1, 3);
         let mut parts = vec![];
         for _ in 0..n {
-            let who_n = rng.range(1, 2);
+            // one clause in 8 has no who part (`+x`, `=r`): chmod(1) reads it through the umask;
+            // the pinned parser rejects it
+            let who_n = if rng.chance(1, 8) { 0 } else { rng.range(1, 2) };
             let mut who = String::new();
             for _ in 0..who_n {
                 who.push(*rng.pick(&['u', 'g', 'o', 'a']));
@@ -281,9 +314,9 @@ pub fn format_string(rng: &mut Rng, cfg: &GenCfg, newline: bool) -> String {
         s.push_str(*rng.pick(&LITERALS));
         if cfg.placeholder_strings && rng.chance(1, 4) {
             // a literal that looks like a placeholder ('%' and '~' would be directives: skip those)
-            let ph = *rng.pick(&PLACEHOLDERS);
+            let ph = placeholder(rng);
             if !ph.contains('%') && !ph.contains('~') {
-                s.push_str(ph);
+                s.push_str(&ph);
             }
         }
     }
@@ -402,7 +435,7 @@ pub fn expression(rng: &mut Rng, cfg: &GenCfg) -> String {
     }
     if cfg.placeholder_strings {
         for _ in 0..rng.range(0, 2) {
-            let ph = *rng.pick(&PLACEHOLDERS);
+            let ph = placeholder(rng);
             let t = match rng.below(4) {
                 0 => format!("-pool {ph}"),
                 1 => format!("-xattr {ph}"),
@@ -505,7 +538,7 @@ pub fn expression(rng: &mut Rng, cfg: &GenCfg) -> String {
 /// Degenerate but valid inputs.
 pub const DEGENERATE_SUBJECTS: [&str; 8] = ["", "   ", "-depth", "-threads 3", "-depth -threads 0 -depth", "\n-true\n", "-true", "-print"];
 
-pub const ERROR_SUBJECTS: [&str; 52] = [
+pub const ERROR_SUBJECTS: [&str; 56] = [
     "-newermt now",
     "-newermt yesterday -print",
     "-newerat '2 days ago'",
@@ -528,6 +561,10 @@ pub const ERROR_SUBJECTS: [&str; 52] = [
     // one of them must do so deterministically)
     "-perm +222 -print",
     "-type f -perm +u+w",
+    "-perm /+w",
+    "-perm -+x -print",
+    "-perm =r",
+    "-perm -u+x,+r -print",
     "-newer ref.txt",
     "-mmin +1.5",
     "-daystart -mtime 1",
